@@ -1,5 +1,6 @@
 import NetVerif.Model.H3Conn
 import NetVerif.Gen.C35
+import NetVerif.Proofs.Lemmas.H3Safe
 /-!
 C35 — HTTP/3 stream framing never leaks bytes across frame boundaries.
 Model: `Model/H3Stream.lean` (stream.go, settings.go) and `Model/H3Conn.lean` (body.go, conn.go,
@@ -37,12 +38,14 @@ theorem gen_reservedSettings_eq (t : Nat) : reservedSetting t = Gen.C35.reserved
 /-! ### The read limit -/
 
 /-- `recordBytesRead` fails exactly when the read passes the limit; the failure is a connection
-error H3_FRAME_ERROR and kills the stream; success keeps `lim ≥ 0` inside a frame. -/
+error H3_FRAME_ERROR and parks the limit at the end of the frame (so every further read in the
+frame fails the same way; `lim` is never negative except for the "no frame" value); success keeps
+`lim ≥ 0` inside a frame. -/
 theorem recordBytesRead_spec (s : St) (n : Nat) :
     (s.lim < 0 → recordBytesRead s n = .ok () s) ∧
     (0 ≤ s.lim → (n : Int) ≤ s.lim → recordBytesRead s n = .ok () { s with lim := s.lim - n }) ∧
     (0 ≤ s.lim → s.lim < (n : Int) →
-      recordBytesRead s n = .err (.conn cFrameError) { s with lim := s.lim - n, dead := true }) := by
+      recordBytesRead s n = .err (.conn cFrameError) { s with lim := 0 }) := by
   unfold recordBytesRead
   refine ⟨?_, ?_, ?_⟩
   · intro h; simp [h]
@@ -67,7 +70,7 @@ theorem endFrame_spec (s : St) :
 
 /-- Reading a byte at the end of the frame (over-read) is a connection error H3_FRAME_ERROR. -/
 theorem readByte_overread (s : St) (h : s.lim = 0) :
-    readByte s = .err (.conn cFrameError) { s with lim := -1, dead := true } := by
+    readByte s = .err (.conn cFrameError) { s with lim := 0 } := by
   unfold readByte recordBytesRead
   simp [h]
 
@@ -183,43 +186,46 @@ theorem read_window (s s' : St) (k : Nat) (bs : List Nat) (eof : Bool) (h : NetV
       · rw [hrec.2.2 (by omega) (by omega)] at h
         cases h
 
-/-! ### Panics (candidate finding: the full statement is FALSE today) -/
+/-! ### Panics
 
-/-- "For any bytes on a request stream the implementation never panics." -/
+Before the repair (`fix: internal/http3: keep the QUIC stream after a frame-limit overrun`)
+`recordBytesRead` set `st.stream = nil` on an overrun and `handleStreamError` then dereferenced it:
+4 bytes (`01 01 ff 00`) on a request stream crashed the process and the statement below was FALSE. -/
+
+/-- "For any bytes on a request, control or other unidirectional stream the implementation never panics." -/
 def NoPanicStatement : Prop :=
   ∀ (H : Huff) (tbl : List (List Nat × List Nat)) (k : Nat) (data : List Nat),
-    (handleRequest H tbl k (St.fresh data)).2 ≠ .panic
+    (handleRequest H tbl k (St.fresh data)).2 ≠ .panic ∧ handleUni (St.fresh data) ≠ .panic
+
+open NetVerif.Proofs.H3Safe in
+theorem noPanic_holds : NoPanicStatement := by
+  intro H tbl k data
+  refine ⟨?_, handleUni_no_panic data⟩
+  unfold handleRequest
+  exact finish_no_panic _ (safe_requestHandler H tbl k _ (good_fresh data))
 
 def Hid : Huff := { encLen := fun s => s.length, enc := fun s => s, dec := fun s => some s }
 
-/-- Witness: HEADERS frame of declared length 1 whose QPACK prefix integer needs a second byte. -/
-theorem noPanic_witness : (handleRequest Hid [] 4 (St.fresh [1, 1, 255, 0])).2 = .panic := by rfl
+/-- The old witness (HEADERS frame of declared length 1 whose QPACK prefix integer needs a second
+byte) now ends in a stream reset. -/
+example : (handleRequest Hid [] 4 (St.fresh [1, 1, 255, 0])).2 = .reset cInternalError := by rfl
 
-theorem noPanic_full_false : ¬ NoPanicStatement := fun h => h Hid [] 4 [1, 1, 255, 0] noPanic_witness
+/-- No modelled operation kills the stream any more: after any byte sequence the request handler
+leaves the QUIC stream in place (so `handleStreamError` can close or reset it). -/
+theorem requestHandler_stream_kept (H : Huff) (tbl : List (List Nat × List Nat)) (k : Nat) (data : List Nat) :
+    ∀ e s, (requestHandler H tbl k (St.fresh data)).2 = .err e s → s.dead = false := by
+  intro e s h
+  have := NetVerif.Proofs.H3Safe.safe_requestHandler H tbl k _ (NetVerif.Proofs.H3Safe.good_fresh data)
+  rw [h] at this
+  exact this.1
 
-/-- Exactly when `handleStreamError` panics: the stream was killed by a limit overrun
-(`st.stream = nil`) and the error is not a `*connectionError`. -/
+/-- Exactly when `handleStreamError` would panic: a nil stream and an error that is not a
+`*connectionError` (unreachable by `requestHandler_stream_kept`). -/
 theorem handleStreamError_panic_iff (s : St) (e : Option Err) :
     handleStreamError s e = .panic ↔ (s.dead = true ∧ ∀ c, e ≠ some (.conn c)) := by
   unfold handleStreamError
   cases e with
   | none => cases hd : s.dead <;> simp [hd]
   | some e => cases e <;> cases hd : s.dead <;> simp [hd]
-
-/-- Outside that region nothing panics at the connection level (`_partial`: the handlers' own
-totality on live streams is covered by the differential run, not proved). -/
-theorem finish_no_panic_partial (o : Out Unit) (h : ∀ e s, o = .err e s → s.dead = false ∨ ∃ c, e = .conn c)
-    (h2 : ∀ a s, o = .ok a s → s.dead = false) (hp : o ≠ .panic) : finish o ≠ .panic := by
-  unfold finish
-  cases o with
-  | ok a s => simp only; rw [Ne, handleStreamError_panic_iff]; intro hh; have := h2 a s rfl; simp [this] at hh
-  | err e s =>
-    simp only; rw [Ne, handleStreamError_panic_iff]
-    intro hh
-    rcases h e s rfl with hd | ⟨c, rfl⟩
-    · simp [hd] at hh
-    · exact hh.2 c rfl
-  | panic => exact absurd rfl hp
-  | hang => simp
 
 end NetVerif.Proofs.C35
